@@ -55,6 +55,7 @@ type HarnessResult struct {
 	Paths         int
 	PathsByStatus map[string]int
 	Obligations   int
+	Trivial       int
 	Discharged    int
 	Unknown       int
 	Violations    []*Violation
@@ -209,6 +210,11 @@ func (p *Path) Assume(c *Term) bool {
 // Returns false if c cannot hold at all (path must end).
 func (p *Path) MustHold(c *Term, kind, label, msg string, in *Interp) bool {
 	if c == TTrue {
+		if kind == "assert" {
+			p.ex.res.Obligations++
+			p.ex.res.Discharged++
+			p.ex.res.Trivial++
+		}
 		return true
 	}
 	p.ex.res.Obligations++
